@@ -31,8 +31,13 @@ def name_ok(provs):
     return True
 
 
-def point(kind, tag="wire", by_name=0, has_q=False, q=(), req=True):
-    return dict(kind=kind, tag=tag, byName=by_name, hasQ=has_q, q=list(q), req=req)
+_FN = random.Random(12345)      # deterministic choice of the requested method for func points
+
+
+def point(kind, tag="wire", by_name=0, has_q=False, q=(), req=True, fn=None):
+    if fn is None:
+        fn = _FN.choice(["Mark", "Tick"]) if tag == "func" else "Mark"
+    return dict(kind=kind, tag=tag, byName=by_name, hasQ=has_q, q=list(q), req=req, fn=fn)
 
 
 def rand_point(rng, nprov, focus):
